@@ -9,7 +9,7 @@
    no triangle is degenerate, no directed edge is used twice and the reverse of every used directed edge is
    used too — i.e. a closed (boundaryless, 2-manifold-edged), consistently oriented surface. *)
 From PF Require Import Gen.Closed Gen.ClosedProofs Gen.FamilyProofs Gen.Sphere Gen.Hemisphere Gen.Cylinder Gen.Cube
-  Gen.CylinderProofs Gen.SphereProofs Gen.CubeProofs Gen.CylinderGeom Gen.SphereGeom Gen.CylinderVolume Gen.SphereVolume Gen.HemiVolume Gen.CubeClasses Gen.GenProofs.
+  Gen.CylinderProofs Gen.SphereProofs Gen.CubeProofs Gen.CylinderGeom Gen.SphereGeom Gen.CylinderVolume Gen.CylinderMono Gen.SphereVolume Gen.HemiVolume Gen.CubeClasses Gen.GenProofs.
 From Coq Require Import Reals.
 Open Scope N_scope.
 
@@ -212,8 +212,20 @@ Theorem cyl_all_faces_outward : forall n rad h, (3 <= n)%N -> 0 < rad -> 0 < h -
 Proof. exact CylinderVolume.cyl_all_faces_outward. Qed.
 Print Assumptions cyl_all_faces_outward.
 
-(* the prism is smaller than the cylinder, and its volume tends to pi * rad^2 * h as the side count grows
-   (monotonicity in n — x -> sin x / x decreasing — is not proved) *)
+(* every supplied vertex normal of the whole cylinder mesh is on the outer side of every incident face
+   (cyl_nrmR: strip (cos, +-0.1, sin), top circle (0, 1, 0), bottom circle turned to (0, -1, 0); up to normalisation) *)
+Theorem cyl_all_normals_outward : forall n rad h, (3 <= n)%N -> 0 < rad -> 0 < h ->
+  Forall pn_outer (tris_of (map (fun v => (cyl_posR n rad h v, cyl_nrmR n v)) (cyl_idx n))).
+Proof. exact CylinderVolume.cyl_all_normals_outward. Qed.
+Print Assumptions cyl_all_normals_outward.
+
+(* the prism is smaller than the cylinder, its volume grows with the side count (sin is concave on [0, pi]) and tends
+   to pi * rad^2 * h *)
+Theorem cyl_volume_monotone : forall m n rad h, (2 <= m)%N -> (m <= n)%N -> 0 <= h ->
+  rvol6 (cyl_trisR m rad h) / 6 <= rvol6 (cyl_trisR n rad h) / 6.
+Proof. exact CylinderMono.cyl_volume_monotone. Qed.
+Print Assumptions cyl_volume_monotone.
+
 Theorem cyl_volume_below_analytic : forall n rad h, (3 <= n)%N -> 0 < rad -> 0 < h ->
   rvol6 (cyl_trisR n rad h) / 6 < PI * rad * rad * h.
 Proof. exact CylinderVolume.cyl_volume_below_analytic. Qed.
@@ -234,6 +246,18 @@ Theorem sphere_volume_is_sum : forall r c rad, (2 <= r)%N -> (1 <= c)%N ->
 Proof. exact SphereVolume.sphere_volume_is_sum. Qed.
 Print Assumptions sphere_volume_is_sum.
 
+(* the same volume written as the polyhedron inscribed for (rows, columns): c wedges of a stack of r slabs (two pole
+   pyramids, r-2 frusta) between regular c-gons of circumradius rho_l = rad * sin (phi l) at height y_l = rad * cos (phi l):
+   sum of (y_l - y_(l+1))/3 * (c/2 * sin (2*pi/c)) * (rho_l^2 + rho_(l+1)^2 + rho_l * rho_(l+1)) — the closed form the
+   harness compares the implementation's float volume with *)
+Theorem sphere_volume_frusta : forall r c rad, (2 <= r)%N -> (1 <= c)%N ->
+  rvol6 (sph_trisR r c rad) / 6 =
+    rsum (fun l => (rad * cos (phi r l) - rad * cos (phi r (l + 1))) / 3 * (NR c / 2 * sin (2 * PI / NR c)) *
+                   ((rad * sin (phi r l)) * (rad * sin (phi r l)) + (rad * sin (phi r (l + 1))) * (rad * sin (phi r (l + 1)))
+                    + (rad * sin (phi r l)) * (rad * sin (phi r (l + 1))))) (nseq r).
+Proof. exact SphereVolume.sphere_volume_frusta. Qed.
+Print Assumptions sphere_volume_frusta.
+
 Theorem sphere_volume_pos : forall r c rad, (2 <= r)%N -> (3 <= c)%N -> 0 < rad -> 0 < rvol6 (sph_trisR r c rad) / 6.
 Proof. exact SphereVolume.sphere_volume_pos. Qed.
 Print Assumptions sphere_volume_pos.
@@ -244,6 +268,11 @@ Theorem sphere_all_faces_outward : forall r c rad, (2 <= r)%N -> (3 <= c)%N -> 0
   Forall (rfaces_away rzero) (sph_trisR r c rad).
 Proof. exact SphereVolume.sphere_all_faces_outward. Qed.
 Print Assumptions sphere_all_faces_outward.
+
+Theorem sphere_all_normals_outward : forall r c rad, (2 <= r)%N -> (3 <= c)%N -> 0 < rad ->
+  Forall corners_outer (sph_trisR r c rad).
+Proof. exact SphereVolume.sphere_all_normals_outward. Qed.
+Print Assumptions sphere_all_normals_outward.
 
 (* the unwelded sphere copies calculatedPositions[class of k] into fresh vertex k: same triangles, hence same
    volume and orientation *)
